@@ -1,12 +1,28 @@
 """C08 - blocks are the hop-spaced windows of the input, padded only at the end;
 zero_pad yields left pads, the items, right pads."""
+import collections.abc
 import itertools
+from collections import deque
 
 from audiolazy import Stream, blocks, zero_pad
 
 ID = "C08"
 
 HETERO = [None, "a", "pad", (1, 2), (), 0, 1, -7, 2.5, True, "0.0", (None,)]
+
+
+class IntIndexedSeq(collections.abc.Sequence):
+  """A legitimate Sequence that supports integer indexes only (no slicing)."""
+  def __init__(self, items):
+    self._items = list(items)
+
+  def __len__(self):
+    return len(self._items)
+
+  def __getitem__(self, idx):
+    if not isinstance(idx, int):
+      raise TypeError("integer indexes only")
+    return self._items[idx]
 
 
 def expected_blocks(x, size, hop, padval, endless=False, nblocks=None):
@@ -58,7 +74,9 @@ def cases(ctx):
       else:
         items = [rng.randint(-5, 5) for _ in range(L)]
       pad = rng.choice([0., None, "P", (0,), -1, items and items[0]])
-      yield ("blocks", rng.choice(["func", "stream", "funciter", "kw"]),
+      yield ("blocks", rng.choice(["func", "stream", "funciter", "kw",
+                                   "func-deque", "func-seq", "stream-pos",
+                                   "func-blocks-of-blocks"]),
              items, size, hop, pad, False)
     elif kind < 0.85:
       period = [rng.choice(HETERO) for _ in range(rng.randint(1, 5))]
@@ -91,7 +109,22 @@ def run_case(ctx, case):
     _, variant, items, size, hop, pad, exhaustive = case
     h = size if hop is None else hop
     want = expected_blocks(items, size, h, pad)
-    if variant == "func":
+    if variant == "func-deque":
+      gen = blocks(deque(items), size, hop, pad)
+    elif variant == "func-seq":
+      gen = blocks(IntIndexedSeq(items), size, hop, pad)
+    elif variant == "func-blocks-of-blocks":
+      # a yielded block (a deque) fed back into blocks
+      first = next(blocks(list(items) + [pad], len(items) or 1), None)
+      gen = blocks(first if first is not None and len(items) else [], size,
+                   hop, pad)
+    elif variant == "stream-pos":
+      st = Stream(list(items))
+      gen = st.blocks(size, hop, pad) if hop is not None else st.blocks(size)
+      if hop is None:
+        pad = 0.
+        want = expected_blocks(items, size, h, pad)
+    elif variant == "func":
       gen = blocks(list(items), size, hop, pad) if hop is not None else \
             blocks(list(items), size, padval=pad)
     elif variant == "funciter":
@@ -106,6 +139,7 @@ def run_case(ctx, case):
       if len(got) > len(want) + 3:
         break
     ctx.count("blocks_compared", len(got))
+    ctx.count("variant:" + variant)
     if h < size:
       ctx.count("branch:hop<size")
     elif h == size:
@@ -174,6 +208,8 @@ def run_case(ctx, case):
 
 
 def finish(ctx):
+  for v in ["func-deque", "func-seq", "stream-pos", "func-blocks-of-blocks"]:
+    ctx.need("variant:" + v, 50)
   if not ctx.quick and ctx.shard == 0:
     # extra workload: the repository's own test-suite under passive monitors
     from vlib.passive_run import run_suite
